@@ -20,6 +20,8 @@ Record item := {
   i_t : instant;           (* the instant the client meant *)
   i_text : string;         (* the text the client sent (epoch / RFC 3339) *)
   i_mts : option mts;      (* the msgpack timestamp the client sent *)
+  i_ctx : N;               (* 0: its request was handled alone; 1: its request's handling was interleaved with
+                              other batch requests (deterministic hand-over); 2: posted concurrently with others *)
   i_obs : tobs
 }.
 
@@ -72,6 +74,7 @@ Definition violation_code (it : item) : N :=
   | OMissing => 14
   | OOther => 15
   | OTime _ =>
+      if negb (i_ctx it =? 0)%N then 16 else
       match i_fmt it with
       | FEpoch O => 11
       | FEpoch _ => 10
